@@ -663,7 +663,11 @@ fn gen_col(rng: &mut Rng, allow_long: bool) -> GenCol {
             let style = if allow_long { rng.below(3) } else { 0 };
             for _ in 0..n {
                 let st = if style == 0 { 0 } else if rng.chance(1, 4) { 0 } else { style };
-                pool.push(Val::Bytes(gen_bytes(rng, ty, st)));
+                let mut b = gen_bytes(rng, ty, st);
+                if b.is_empty() {
+                    b.push(if ty == Ty::Bin { *rng.pick(&[0u8, 0x61, 0xFF]) } else { b'a' });
+                }
+                pool.push(Val::Bytes(b));
             }
         }
     }
@@ -706,25 +710,50 @@ fn gen_lit(rng: &mut Rng, c: &GenCol, stats: bool) -> Val {
     }
 }
 
-fn gen_pred(rng: &mut Rng, cols: &[GenCol; 2], depth: usize) -> Pred {
+/// `eqfam[c]`: an `=`, `!=`, `IN` or `NOT IN` leaf on column `c` is already in the predicate.  DataFusion's simplifier
+/// merges such leaves on one column (`x IN (..) AND x IN (..)` → intersection, `x = a OR x = b` → `x IN (a, b)` …), which
+/// is its own business and not mirrored by the model: at most one of them per column and predicate.
+fn gen_pred(rng: &mut Rng, cols: &[GenCol; 2], depth: usize, eqfam: &mut [bool; 2]) -> Pred {
     let leaf = depth == 0 || rng.chance(3, 5);
     if leaf {
         let c = if rng.chance(2, 3) { 0 } else { 1 };
+        let range_only = eqfam[c];
         match rng.below(12) {
             0 => Pred::IsNull(c),
             1 => Pred::NotNull(c),
-            2 | 3 => {
+            2 | 3 if !range_only => {
+                eqfam[c] = true;
                 let k = 1 + rng.usize(4);
-                let items = (0..k).map(|_| gen_lit(rng, &cols[c], true)).collect();
+                let mut items: Vec<Val> = vec![];
+                for _ in 0..k {
+                    let v = gen_lit(rng, &cols[c], true);
+                    if !items.contains(&v) {
+                        items.push(v);
+                    }
+                }
                 Pred::In(c, rng.chance(1, 3), items)
             }
-            _ => Pred::Cmp(c, OPS[rng.usize(6)], gen_lit(rng, &cols[c], true)),
+            _ => {
+                let op = if range_only { OPS[2 + rng.usize(4)] } else { OPS[rng.usize(6)] };
+                if op == "eq" || op == "ne" {
+                    eqfam[c] = true;
+                }
+                Pred::Cmp(c, op, gen_lit(rng, &cols[c], true))
+            }
         }
     } else {
         match rng.below(5) {
-            0 | 1 => Pred::And(Box::new(gen_pred(rng, cols, depth - 1)), Box::new(gen_pred(rng, cols, depth - 1))),
-            2 | 3 => Pred::Or(Box::new(gen_pred(rng, cols, depth - 1)), Box::new(gen_pred(rng, cols, depth - 1))),
-            _ => Pred::Not(Box::new(gen_pred(rng, cols, depth - 1))),
+            0 | 1 => {
+                let a = gen_pred(rng, cols, depth - 1, eqfam);
+                let b = gen_pred(rng, cols, depth - 1, eqfam);
+                Pred::And(Box::new(a), Box::new(b))
+            }
+            2 | 3 => {
+                let a = gen_pred(rng, cols, depth - 1, eqfam);
+                let b = gen_pred(rng, cols, depth - 1, eqfam);
+                Pred::Or(Box::new(a), Box::new(b))
+            }
+            _ => Pred::Not(Box::new(gen_pred(rng, cols, depth - 1, eqfam))),
         }
     }
 }
@@ -739,9 +768,9 @@ impl Prop for C29 {
     }
     fn budget(&self, tier: Tier) -> usize {
         match tier {
-            Tier::Quick => 220,
-            Tier::Thorough => 6000,
-            Tier::Search => 1500,
+            Tier::Quick => 1000,
+            Tier::Thorough => 20000,
+            Tier::Search => 5000,
         }
     }
 
@@ -791,7 +820,7 @@ impl Prop for C29 {
         )];
         let nq = 4 + rng.usize(6);
         for _ in 0..nq {
-            let p = gen_pred(rng, &cols, 2);
+            let p = gen_pred(rng, &cols, 2, &mut [false, false]);
             let mut toks = vec![];
             show_pred(&p, &mut toks);
             lines.push(format!("q {}", toks.join(" ")));
@@ -843,10 +872,36 @@ impl Prop for C29 {
                             if r[c].is_none() && !(nullable[c] && tys[c].is_bytes()) {
                                 return None;
                             }
+                            // the legacy format reads an empty string / binary back as NULL (data and statistics
+                            // pages alike): not a statistics matter, kept out of the tables
+                            if matches!(&r[c], Some(Val::Bytes(b)) if b.is_empty()) {
+                                return None;
+                            }
                         }
                         rows.push(r);
                     }
-                    Some(match self.write(tys, nullable, g, &splits, &rows) {
+                    let written = match std::panic::catch_unwind(std::panic::AssertUnwindSafe(|| self.write(tys, nullable, g, &splits, &rows))) {
+                        Ok(r) => r,
+                        Err(e) => {
+                            let msg = e
+                                .downcast_ref::<String>()
+                                .cloned()
+                                .or_else(|| e.downcast_ref::<&str>().map(|s| s.to_string()))
+                                .unwrap_or_else(|| "panic".into());
+                            // a NULL max (all-0xFF prefix that cannot be incremented) in the statistics of a
+                            // NON-NULLABLE column: StatisticsCollector::finish declares min/max with the field's
+                            // nullability and StructArray::new(..) panics
+                            let known = msg.contains("Found unmasked nulls for non-nullable StructArray field");
+                            res.failures.push(OracleFailure {
+                                what: format!("Dataset::write panicked: {msg}"),
+                                key: Some(if known { "stats_null_max_nonnullable_panic" } else { "panic" }.to_string()),
+                                line: ln,
+                            });
+                            res.tags.push("write_panic".into());
+                            return Some("err write_panic".into());
+                        }
+                    };
+                    Some(match written {
                         Ok(t) => {
                             let mut parts = vec![];
                             for (p, ps) in t.stats.iter().enumerate() {
@@ -946,34 +1001,34 @@ impl Prop for C29 {
                             .collect();
                         let mut used = [false; 2];
                         pred_cols(&p, &mut used);
-                        let all = |f: &dyn Fn(usize) -> bool| !diff.is_empty() && diff.iter().all(|i| f(*i as usize));
-                        // every differing row holds a NaN in a float column of the predicate
-                        let nan = all(&|i| (0..2).any(|c| used[c] && t.rows[i][c].as_ref().map(|v| is_nan(t.tys[c], v)).unwrap_or(false)));
-                        // every differing row holds an over-long utf8 string whose truncation is shorter than the prefix
-                        let trunc = all(&|i| {
-                            (0..2).any(|c| {
+                        // class of a differing row: it holds a NaN in a float column of the predicate / an over-long
+                        // utf8 string whose truncation is shorter than the prefix / it lies in a page where a predicate
+                        // column has NULLs and min = max.  Every differing row must be explained by one of them.
+                        let class_of = |i: usize| -> Option<&'static str> {
+                            let nan = (0..2).any(|c| used[c] && t.rows[i][c].as_ref().map(|v| is_nan(t.tys[c], v)).unwrap_or(false));
+                            if nan {
+                                return Some("nan_outside_minmax");
+                            }
+                            let trunc = (0..2).any(|c| {
                                 used[c]
                                     && t.tys[c] == Ty::Utf8
                                     && matches!(&t.rows[i][c], Some(Val::Bytes(b)) if b.len() > PREFIX && utf8_trunc_len(b) < PREFIX)
-                            })
-                        });
-                        // every differing row lies in a page where a predicate column has NULLs and min = max
-                        let single = all(&|i| {
+                            });
+                            if trunc {
+                                return Some("utf8_truncated_max_too_small");
+                            }
                             let ps = &t.stats[i / t.g];
-                            (0..2).any(|c| {
+                            let single = (0..2).any(|c| {
                                 let (nc, mn, mx) = &ps.cols[c];
                                 used[c] && *nc > 0 && (*nc as usize) < ps.rows && mn.is_some() && mn == mx
-                            })
-                        });
-                        let key = if nan {
-                            Some("nan_outside_minmax")
-                        } else if trunc {
-                            Some("utf8_truncated_max_too_small")
-                        } else if single {
-                            Some("maybenull_single_value_column_replaced")
-                        } else {
+                            });
+                            if single {
+                                return Some("maybenull_single_value_column_replaced");
+                            }
                             None
                         };
+                        let classes: Vec<Option<&'static str>> = diff.iter().map(|i| class_of(*i as usize)).collect();
+                        let key = if !classes.is_empty() && classes.iter().all(|c| c.is_some()) { classes[0] } else { None };
                         res.failures.push(OracleFailure {
                             what: format!(
                                 "use_stats(true) returned {} but use_stats(false) returned {} (decisions {dec})",
